@@ -12,7 +12,9 @@ AREA = archgen.AREA
 PROPS_MODULE = "MorfuseModel.Props.C11"
 PROPS_FILE = os.path.join(LEAN, "MorfuseModel", "Props", "C11.lean")
 DETECT = ("hdr", "tag", "ver", "size", "cls")        # a substitution here must be reported
-DAMAGE = ("len", "name", "ncls", "idx", "pcls")      # here only "no crash, nothing outside the objects"
+DAMAGE = ("len", "name", "ncls", "idx", "pcls", "flag")      # here only "no crash, nothing outside the objects"
+# flag: the flag byte of a real Listener record (top level): a damaged flag makes Listener::Archive read event tables /
+# a ScriptVariableList from the bytes behind the record; the model follows both branches (WSch.lobj)
 # pcls: class-name characters of a record that is read with the polymorphic ReadObject(): the reader has no
 # expected class to compare with (a name damaged into another registered name yields an object of that class)
 
@@ -117,6 +119,11 @@ class Runner:
             # only print objects of the expected type); only a crash counts (handled above)
             self.stats["index_damage_in_range"] = self.stats.get("index_damage_in_range", 0) + 1
             return None
+        if pc in ("data", "flag") and impl.startswith("ok") and model.startswith("ok"):
+            # a damaged payload byte that both readers accept: the load completes with other values (which ones is not
+            # C11's business, and a read-back of a variable list looks its variables up by their written names)
+            self.stats["payload_damage_accepted"] = self.stats.get("payload_damage_accepted", 0) + 1
+            return None
         if impl != model:
             return "diff", "diff:%s:%s" % (kind, pc), "implementation `%s`, proved model `%s`" % (impl, model)
         return None
@@ -136,7 +143,7 @@ class Runner:
         self.ctx.violations.append(v)
 
     # ---- one archive --------------------------------------------------------------------
-    def probe_archive(self, info, items, rng, exhaustive_positions=400, ndamage=30, nmulti=30):
+    def probe_archive(self, info, items, rng, exhaustive_positions=400, ndamage=30, nmulti=30, ndata=12, extra_probes=()):
         info, items = archgen.canon(self.exe, self.reg, [(info, items)])[0]
         head = [self.reg, archgen.arc_line(info, items)]
         pre = archgen.run_model(head + ["layout"])
@@ -152,8 +159,13 @@ class Runner:
         dam = [p for p in range(n) if lay[p] in DAMAGE]
         if len(det) > exhaustive_positions:
             det = sorted(rng.sample(det, exhaustive_positions))
-        dam = sorted(rng.sample(dam, min(ndamage, len(dam))))
-        probes = ["tall"] + ["sx %d" % p for p in det + dam]
+        flags = [p for p in dam if lay[p] == "flag"]
+        dam = sorted(set(rng.sample(dam, min(ndamage, len(dam))) + flags[:8]))
+        # payload bytes too (kind bytes, counts and sizes of arrays / sets / lists, key flags, values): only "no crash,
+        # nothing outside the objects" is required there, and the data-directed reader model must predict the outcome
+        pay = [p for p in range(n) if lay[p] == "data"]
+        pay = sorted(rng.sample(pay, min(ndata, len(pay))))
+        probes = ["tall"] + ["sx %d" % p for p in det + dam + pay] + list(extra_probes)
         nd = [p for p in range(n) if lay[p] != "data"]
         for _ in range(nmulti if nd else 0):
             ps = rng.sample(nd, min(len(nd), rng.choice([2, 2, 3, 4, 8])))
@@ -212,6 +224,17 @@ class Runner:
                     j = self.judge("sub", pc, data[p], b, io[b] if b < len(io) else "SKIPPED", mo[b])
                     if j:
                         self.record(j[0], j[1], j[2], info, items, "s %d %d" % (p, b))
+            elif t[0] == "t":
+                self.stats["cuts"] += 1
+                j = self.judge("cut", "cut", 0, 0, shorten(a), shorten(model[i]))
+                if j:
+                    self.record(j[0], j[1], j[2], info, items, pr)
+            elif t[0] == "s":
+                self.stats["substitutions"] += 1
+                p = int(t[1])
+                j = self.judge("sub", lay[p], data[p], int(t[2]), shorten(a), shorten(model[i]))
+                if j:
+                    self.record(j[0], j[1], j[2], info, items, pr)
             else:
                 self.stats["multi_damage"] += 1
                 ps = [int(x) for x in t[1::2]]
@@ -246,6 +269,7 @@ NEED = {
     "versionOr": "either version field differing is rejected (C11_header_version_detected)",
     "indexChecked": "indices from the archive are range-checked (C11_indices_in_bounds, C11_never_undefined)",
     "lengthChecked": "lengths from the archive are bounded by the stream (C11_never_undefined)",
+    "arraySizeChecked": "the element count of an archived const array is bounded by the stream before the elements are allocated (C11_never_undefined_mixed)",
     "valueTypeLate": "a load that fails leaves no script variable with a kind but no data behind (its destructor would crash)",
 }
 
@@ -256,7 +280,7 @@ def corpus_archives():
         o = json.load(open(p))
         t = o["lines"][0].split(" ")
         info = (int(t[1]), b"" if t[2] == "-" else bytes.fromhex(t[2]), b"" if t[3] == "-" else bytes.fromhex(t[3]))
-        res.append((info, archgen.parse_items(t[4:])))
+        res.append((info, archgen.parse_items(t[4:]), [l for l in o["lines"][1:] if l.split(" ")[0] in ("t", "s", "m")]))
     return res
 
 
@@ -271,8 +295,8 @@ def fixed_archives():
         ((2, b"MFUS", b""), [("obj", 1, b"VNode", [("op", 1), ("obj", 2, b"VNodf", []), ("s", b"")]), ("obj", 3, b"VNode", [])]),
         # the same object records read with ReadObject<T>() and with the polymorphic ReadObject()
         ((1, b"MFUS", b"x"), [("objp", 1, L, [("p", "u8", 0)]), ("objt", 2, L, [("p", "u8", 0)]), ("sp", 1),
-                              ("objt", 3, b"VNode", [("op", 1), ("objp", 4, L, [("p", "u8", 0)]), ("s", b"ab")]),
-                              ("objt", 5, b"VNodf", [("sp", 5)])]),
+                              ("objt", 3, b"VNode", [("op", 1), ("objt", 6, b"VNodf", [("p", "u16", 9)]), ("s", b"ab")]),
+                              ("objp", 4, L, [("p", "u8", 0)]), ("objt", 5, b"VNodf", [("sp", 5)])]),
         ((1, b"MFUS", b"x"), []),
     ]
 
@@ -291,11 +315,12 @@ def check(ctx):
     quick = ctx.tier == "quick"
     budget = 45 if quick else 800
     t0 = now()
-    todo = corpus_archives() + fixed_archives()
+    todo = corpus_archives() + [(i, it, []) for i, it in fixed_archives()]
     narch = 0
     while len(r.sigs) < r.max_sigs:
+        extra = []
         if todo:
-            info, items = todo.pop(0)
+            info, items, extra = todo.pop(0)
             big = False
         else:
             if now() - t0 > budget:
@@ -303,10 +328,11 @@ def check(ctx):
             big = rng.random() < 0.15
             nit = rng.choice([30, 80, 200]) if big else rng.choice([1, 3, 6, 10, 16])
             items = archgen.gen_case(rng, nit, nobj=rng.randint(0, 30 if big else 6), maxstr=40, dangling=0.03,
-                                     poly_scripted=False)
+                                     poly_scripted=False, named=True)
             info = archgen.gen_info(rng)
         r.probe_archive(info, items, rng, exhaustive_positions=(30 if quick else 120) if big else 400,
-                        ndamage=20 if quick else 40, nmulti=20 if quick else 60)
+                        ndamage=20 if quick else 40, nmulti=20 if quick else 60, ndata=10 if quick else 30,
+                        extra_probes=extra)
         narch += 1
     ncmp = r.stats["cuts"] + r.stats["substitutions"] + r.stats["multi_damage"]
     viol = [v for v in r.sigs.values() if v["found_input"]]
